@@ -212,7 +212,7 @@ func runC06(c *vk.Ctx) {
 		}
 	}
 	// (c) TERMINATE block, model-based on generated applications
-	mc := &modelCheck{ID: "C06", Kinds: c06Kinds, Drivers: []string{"mem", "fs"}, PastEnd: true, N: [2]int{2000, 50000},
+	mc := &modelCheck{ID: "C06", Kinds: c06Kinds, Drivers: []string{"mem", "fs", "long"}, PastEnd: true, N: [2]int{2000, 50000}, TerminateAfterFailure: true,
 		Profile: func(r *vk.RNG) app.Profile {
 			p := specProfile(r)
 			p.Terminate = true
@@ -220,6 +220,9 @@ func runC06(c *vk.Ctx) {
 			p.Catch = true
 			p.Lang = false
 			p.TailCall = true
+			p.CatchLoads = true
+			p.CatchVariants = true
+			p.LoadErrors = true
 			return p
 		},
 		Hist:       func(r *vk.RNG, a *app.App) []string { return histWithClears(r, a, 6, 24) },
